@@ -217,3 +217,127 @@ Proof.
   split; [intros z Hz5; apply P; apply P5 in Hz5; apply filter_In in Hz5; exact (proj1 Hz5)|].
   split; [rewrite T5; exact T|]. split; [lia|]. split; [lia|exact Htop].
 Qed.
+
+(* ================= any number of arguments ================= *)
+(* inside the frame of a call made with the arguments xs (a of them) at b0 *)
+Definition in_frameN (a b0 ip : Z) (fr : framed) (ser : Z) (xs : list value) (m1 mc : mem) : Prop :=
+  m_fp mc = m_fp m1 ++ [b0; b0 + a] /\ m_clos mc = m_clos m1 ++ [fr] /\ m_serials mc = m_serials m1 ++ [ser] /\
+  incl (m_cap mc) (m_cap m1) /\ firstn (Z.to_nat b0) (m_stack mc) = firstn (Z.to_nat b0) (m_stack m1) /\
+  (forall i x, znth xs i = Some x -> znth (m_stack mc) (b0 + i) = Some x) /\ znth (m_stack mc) (b0 + a) = Some (VInt ip).
+
+Lemma znth_some_range {A} (l : list A) i x : znth l i = Some x -> 0 <= i < zlen l.
+Proof.
+  unfold znth, zlen. destruct (Z.ltb_spec i 0) as [Hn|Hn]; [discriminate|]. intros Hi. split; [lia|].
+  assert (Z.to_nat i < List.length l)%nat by (apply nth_error_Some; congruence). lia.
+Qed.
+
+Lemma in_frameN_msame a b0 ip fr ser xs m1 mc m4 b :
+  in_frameN a b0 ip fr ser xs m1 mc -> msame b mc m4 -> b0 + a + 1 <= b -> 0 <= b0 -> a = zlen xs ->
+  in_frameN a b0 ip fr ser xs m1 m4.
+Proof.
+  intros (F & C & S & P & T & X0 & X1) (F' & C' & S' & P' & T' & B') Hb H0 Ha. unfold in_frameN.
+  assert (Ha0 : 0 <= a) by (subst a; unfold zlen; lia).
+  split; [congruence|]. split; [congruence|]. split; [congruence|]. split; [exact (incl_tran P' P)|].
+  assert (Hpre : forall i, 0 <= i < b -> znth (m_stack m4) i = znth (m_stack mc) i).
+  { intros i Hi. apply (znth_firstn _ _ (Z.to_nat b)); [exact T'|lia|lia]. }
+  split; [|split].
+  - rewrite <- T.
+    assert (H : forall l : list value, firstn (Z.to_nat b0) l = firstn (Z.to_nat b0) (firstn (Z.to_nat b) l)).
+    { intros l. rewrite firstn_firstn. f_equal. lia. }
+    rewrite (H (m_stack m4)), T', <- H. reflexivity.
+  - intros i x Hi. pose proof (znth_some_range xs i x Hi). rewrite Hpre by lia. exact (X0 i x Hi).
+  - rewrite Hpre by lia. exact X1.
+Qed.
+
+Lemma call_enterN rr v mid m1 r1 instr A nm morph fid fr a b0 xs k2 a2 :
+  at_ip v r1 mid instr ->
+  decode instr = {| f_op := CALL; f_k0 := AddrGbl; f_k1 := AddrImm; f_k2 := k2; f_a0 := A; f_a1 := a; f_a2 := a2 |} ->
+  znth (v_ds v) A = Some (VStr nm) -> gval (v_globals v) nm = VFun morph fid ->
+  fn_params morph = a -> fn_locals morph = a -> assoc_get (v_frames v) fid = Some fr ->
+  a = zlen xs -> 0 <= b0 -> m_sp m1 = b0 + a -> m_sp m1 <= zlen (m_stack m1) ->
+  (forall i x, znth xs i = Some x -> znth (m_stack m1) (b0 + i) = Some x) ->
+  exists mc, step (St v mid m1) r1 rr = SNext (St (vbump v) mid mc) (with_ip r1 (fn_node morph - 1)) /\
+    in_frameN a b0 (r_ip r1) fr (v_next v) xs m1 mc /\ m_sp mc = b0 + a + 1 /\ m_sp mc <= zlen (m_stack mc).
+Proof.
+  intros Hat Hd Hnm Hg Hp Hl Hfr Ha Hb0 Hsp Hle Hx.
+  assert (Ha0 : 0 <= a) by (rewrite Ha; unfold zlen; lia).
+  rewrite (step_call v mid m1 r1 rr instr _ _ _ _ _ _ Hat Hd).
+  rewrite (fetch_gbl v mid m1 A nm Hnm). cbn [obind]. rewrite Hg, Hp. rewrite Z.eqb_refl. cbn [negb].
+  change (v_frames (St v mid m1)) with (v_frames v). rewrite Hfr. cbn [req obind].
+  rewrite bump_St. rewrite St_get. cbn [obind]. rewrite Hl.
+  unfold mPushFrame. replace (a - a) with 0 by lia.
+  pose proof (growStack_only_grows m1 0) as (Esp & Efp & Ecl & Elen & Efst).
+  assert (Eser : m_serials (fst (growStack m1 0)) = m_serials m1 /\ m_cap (fst (growStack m1 0)) = m_cap m1).
+  { unfold growStack. destruct (m_sp m1 + 0 >=? zlen (m_stack m1)); split; reflexivity. }
+  destruct Eser as [Eser Ecap].
+  destruct (growStack m1 0) as [mg g] eqn:G. cbn [fst] in *.
+  cbn [Z.gtb Z.compare andb fill_nil Z.to_nat]. cbn [obind].
+  rewrite St_St. cbn [m_sp m_fp m_clos m_stack m_serials m_cap m_gen].
+  match goal with |- context [vPush (St _ _ ?mm) _ _] => set (m2 := mm) end.
+  assert (Hsp2 : 0 <= m_sp m2 <= zlen (m_stack m2)).
+  { cbn [m2 m_sp m_stack]. unfold zlen in *. lia. }
+  destruct (vPush_St (vbump v) mid m2 (VInt (r_ip r1)) Hsp2) as [mc [Hpush [Hmc [Hspc Htop]]]].
+  rewrite Hpush. cbn [obind lift next]. exists mc. split; [reflexivity|].
+  destruct Hmc as (F & C & S & P & T & B). cbn [m2 m_sp m_fp m_clos m_serials m_cap m_stack] in *.
+  split; [|split; [lia|lia]].
+  unfold in_frameN. split; [rewrite F, Efp, Esp; f_equal; f_equal; [lia|f_equal; lia]|].
+  split; [rewrite C, Ecl; reflexivity|]. split; [rewrite S, Eser; reflexivity|]. split; [rewrite <- Ecap; exact P|].
+  split; [|split].
+  - assert (H : forall l : list value, firstn (Z.to_nat b0) l = firstn (Z.to_nat b0) (firstn (Z.to_nat (m_sp mg + 0)) l)).
+    { intros l. rewrite firstn_firstn. f_equal. lia. }
+    rewrite (H (m_stack mc)), T, <- H.
+    assert (H' : forall l : list value, firstn (Z.to_nat b0) l = firstn (Z.to_nat b0) (firstn (List.length (m_stack m1)) l)).
+    { intros l. rewrite firstn_firstn. f_equal. unfold zlen in Hle. lia. }
+    rewrite (H' (m_stack mg)), Efst. reflexivity.
+  - intros i x Hi. pose proof (znth_some_range xs i x Hi) as Hr. specialize (Hx i x Hi).
+    assert (Hx' : znth (m_stack mg) (b0 + i) = Some x).
+    { rewrite <- Hx. apply (znth_firstn _ _ (List.length (m_stack m1))); [rewrite Efst; rewrite firstn_all; reflexivity|lia|].
+      unfold zlen in Hle. lia. }
+    rewrite <- Hx'. apply (znth_firstn _ _ (Z.to_nat (m_sp mg + 0))); [exact T|lia|lia].
+  - replace (b0 + a) with (m_sp mg + 0) by lia. exact Htop.
+Qed.
+
+Lemma call_leaveN rr v mid m1 m4 m4' r instr a b0 ip fr ser xs y K A k1 k2 a1 a2 :
+  at_ip v r mid instr ->
+  decode instr = {| f_op := RET; f_k0 := K; f_k1 := k1; f_k2 := k2; f_a0 := A; f_a1 := a1; f_a2 := a2 |} ->
+  fetch (St v mid m4) mid K A = Good (St v mid m4', y) ->
+  in_frameN a b0 ip fr ser xs m1 m4' -> 0 <= a -> 0 <= b0 -> m_sp m4' = b0 + a + 1 -> m_sp m4' <= zlen (m_stack m4') ->
+  not_fun y ->
+  exists m5, step (St v mid m4) r rr = SNext (St v mid m5) (with_ip r ip) /\
+    m_fp m5 = m_fp m1 /\ m_clos m5 = m_clos m1 /\ m_serials m5 = m_serials m1 /\ incl (m_cap m5) (m_cap m1) /\
+    firstn (Z.to_nat b0) (m_stack m5) = firstn (Z.to_nat b0) (m_stack m1) /\
+    m_sp m5 = b0 + 1 /\ m_sp m5 <= zlen (m_stack m5) /\ znth (m_stack m5) b0 = Some y.
+Proof.
+  intros Hat Hd Hf (F & C & S & P & T & X0 & X1) Ha Hb0 Hsp Hle Hnf.
+  rewrite (step_ret v mid m4 r rr instr _ _ _ _ _ _ Hat Hd). rewrite Hf. cbn [obind].
+  assert (Epv : (match y with
+                 | VFun morph fid =>
+                     match assoc_get (v_frames (St v mid m4')) fid with
+                     | Some fr0 => let (va, owned) := frame_content (St v mid m4') fr0 in
+                                   let (vb, nfid) := add_frame va owned in Good (vb, VFun morph nfid)
+                     | None => Good (St v mid m4', y)
+                     end
+                 | _ => Good (St v mid m4', y)
+                 end) = Good (St v mid m4', y)).
+  { destruct y; try reflexivity. contradiction. }
+  rewrite Epv. cbn [obind]. rewrite St_get. cbn [obind]. rewrite F.
+  assert (Hz : (zlen (m_fp m1 ++ [b0; b0 + a]) - 1 <? 0) = false).
+  { apply Z.ltb_ge. unfold zlen. rewrite app_length. cbn [List.length]. lia. }
+  rewrite Hz.
+  destruct (fp_at_app2 m4' (m_fp m1) b0 (b0 + a) F) as [F2 F1].
+  rewrite F1. cbn [obind]. unfold stack_get. rewrite X1. cbn [req obind].
+  unfold mPopFrame. rewrite F2. cbn [obind]. cbn [m_clos m_sp m_fp m_stack m_serials m_cap m_gen].
+  rewrite C. assert (Hzc : (zlen (m_clos m1 ++ [fr]) <? 1) = false).
+  { apply Z.ltb_ge. unfold zlen. rewrite app_length. cbn [List.length]. lia. }
+  rewrite Hzc. rewrite St_St.
+  rewrite F, S, drop_last_app2', drop_last_app1', drop_last_app1', last_opt_app1.
+  set (m5' := {| m_sp := b0; m_fp := m_fp m1; m_clos := m_clos m1; m_stack := m_stack m4'; m_serials := m_serials m1;
+                 m_cap := filter (fun x0 => negb (x0 =? ser)) (m_cap m4'); m_gen := m_gen m4' |}).
+  assert (Hsp5 : 0 <= m_sp m5' <= zlen (m_stack m5')) by (cbn [m5' m_sp m_stack]; lia).
+  destruct (vPush_St v mid m5' y Hsp5) as [m5 [Hpush [Hm5 [Hsp5' Htop]]]].
+  rewrite Hpush. cbn [obind lift next]. exists m5. split; [reflexivity|].
+  destruct Hm5 as (F5 & C5 & S5 & P5 & T5 & B5). cbn [m5' m_sp m_fp m_clos m_serials m_cap m_stack] in *.
+  split; [exact F5|]. split; [exact C5|]. split; [exact S5|].
+  split; [intros z Hz5; apply P; apply P5 in Hz5; apply filter_In in Hz5; exact (proj1 Hz5)|].
+  split; [rewrite T5; exact T|]. split; [lia|]. split; [lia|exact Htop].
+Qed.
